@@ -46,8 +46,13 @@ func (w *World) locKey(addr ssa.Value) string {
 	case *ssa.Global:
 		return "global:" + short(x.String())
 	}
-	// an address held in a value (pointer parameter, loaded pointer, call result ...)
-	return "@" + w.key(addr)
+	// an address held in a value (pointer parameter, loaded pointer, call result ...); a value
+	// that IS the address of a known location (&alloc) names that location
+	k := w.key(addr)
+	if strings.HasPrefix(k, "&alloc:") {
+		return k[1:]
+	}
+	return "@" + k
 }
 
 // binding returns the value bound to a free variable when its closure is created at exactly
@@ -189,6 +194,15 @@ func (w *World) loadKey(ld *ssa.UnOp) string {
 				if al, p2 := allocBase(b); al != nil {
 					base, path = al, append(p2, pathOf(addr)...)
 				}
+			}
+		}
+	}
+	if strings.HasPrefix(loc, "alloc:") {
+		// a field of a local context object that is written once, before the object is handed
+		// to a method value / helper: the load is the stored value (writeonce.go)
+		if wo := w.woStore(loc); wo != nil && (base == nil || w.escapes(base)) {
+			if ld.Parent() != wo.st.Parent() || instrDominates(wo.st, ld) {
+				return w.key(wo.st.Val) + wo.suffix
 			}
 		}
 	}
